@@ -43,6 +43,9 @@ function alphabet(name) {
       return [S0, R0, Q0, C0, sel([R(0)]), sel([S(0)]), G0, Y];
     case 'one-misc':
       return [S0, R0, C0, L0, N, X, Y, sel([R(0), S(0)], 1)];
+    case 'dup-select':
+      // one select statement holding the same channel twice in the same direction
+      return [S0, S1, R0, R1, C0, C1, sel([R(0), R(0), R(1)]), sel([R(0), R(0), R(1)], 1), sel([S(0), S(0), R(1)]), sel([R(0), R(0)]), sel([S(1), S(1), R(0)]), Y];
     case 'two-quick':
       return [S0, S1, R0, R1, C0, sel([R(0), R(1)]), sel([R(0), R(1)], 1), sel([S(0), S(1)]), sel([S(0), S(1)], 1), sel([R(0), S(1)]), sel([R(0), S(1)], 1)];
     case 'wake-main':
@@ -65,6 +68,7 @@ function families(tier) {
     { name: 'F5', alpha: 'one-small', lens: [2, 2], caps: [[0], [1]], norecover: true },
     { name: 'F6', alpha: 'one-small', lens: [2, 2], caps: [[0]], expose: true },
     // close/send with several waiters of different kinds parked on one channel, main waiting for the result
+    { name: 'F8', alpha: 'dup-select', lens: [2, 2], caps: [[0, 0], [1, 0]] },
     { name: 'F7', alphas: ['wake-main', 'wake-g', 'wake-g'], lens: [3, 1, 2], caps: [[0, 0]] },
   ];
   if (tier !== 'thorough') return q;
